@@ -748,6 +748,28 @@ def request_view(op, p, version):
 # ---------------------------------------------------------------------------
 # per-operation: response payload (from a spec) and the value the client must hand back
 # ---------------------------------------------------------------------------
+class MixedReferencesPayload(payloads.GetAttributeListResponsePayload):
+    """A KMIP 2.0 GetAttributeList answer as another server may legally send it: standard attributes as Attribute
+    Reference ENUMERATIONS (their tags), vendor attributes (x-...) as Attribute Reference STRUCTURES (Vendor
+    Identification + Attribute Name) - both forms in one payload, in the order of the names.  (The library's own
+    writer emits enumerations only and cannot express a vendor attribute.)"""
+
+    def write(self, output_buffer, kmip_version=enums.KMIPVersion.KMIP_1_0):
+        from kmip.core import objects as cobj
+        from kmip.core import primitives as prim
+        local = utils.BytearrayStream()
+        prim.TextString(value=self.unique_identifier, tag=enums.Tags.UNIQUE_IDENTIFIER).write(local, kmip_version=kmip_version)
+        for n in self.attribute_names:
+            if n.startswith("x-"):
+                cobj.AttributeReference(vendor_identification="Acme", attribute_name=n).write(local, kmip_version=kmip_version)
+            else:
+                prim.Enumeration(enums.Tags, value=enums.convert_attribute_name_to_tag(n),
+                                 tag=enums.Tags.ATTRIBUTE_REFERENCE).write(local, kmip_version=kmip_version)
+        self.length = local.length()
+        super(payloads.GetAttributeListResponsePayload, self).write(output_buffer, kmip_version=kmip_version)
+        output_buffer.write(local.buffer)
+
+
 def build_response_payload(op, s, version):
     """payload spec -> ResponsePayload object of the real codec"""
     UI = cattr.UniqueIdentifier
@@ -778,6 +800,8 @@ def build_response_payload(op, s, version):
         return payloads.GetAttributesResponsePayload(unique_identifier=s["uid"],
                                                      attributes=[build_attribute(t) for t in s["attributes"]])
     if op == "get_attribute_list":
+        if version >= 20 and any(n.startswith("x-") for n in s["names"]):
+            return MixedReferencesPayload(unique_identifier=s["uid"], attribute_names=s["names"])
         return payloads.GetAttributeListResponsePayload(unique_identifier=s["uid"], attribute_names=s["names"])
     if op == "activate":
         return payloads.ActivateResponsePayload(unique_identifier=UI(s["uid"]))
